@@ -4,6 +4,7 @@ CONSTANTS
   SampleSize = 3000
   NoTypeCheck = FALSE
   ImportOnlyNotFound = FALSE
+  MroRegistryLookup = FALSE
   NoClassCheck = FALSE
 SPECIFICATION Spec
 CONSTRAINT EmitVal
